@@ -243,6 +243,29 @@ pub fn dispatch(name: &str, args: &[&str]) -> Option<String> {
                 }
             })
         }
+        // resp_ser_ck <code> <items: h:<name>:<value> | c:<name>:<value>:<secure 0|1>, ...> <body>: with_header / with_cookie
+        // in the given order, then the serialisation
+        "resp_ser_ck" => {
+            let code: u16 = args[0].parse().unwrap();
+            let st = StatusCode::try_from(code).ok()?;
+            let mut r = Response::new(st, unhex(args[2]));
+            if args[1] != "-" {
+                for it in args[1].split(',') {
+                    let f: Vec<&str> = it.split(':').collect();
+                    if f[0] == "h" {
+                        r = r.with_header(unhex_str(f[1]), unhex_str(f[2]));
+                    } else {
+                        let mut c = SetCookie::new(unhex_str(f[1]), unhex_str(f[2]));
+                        if f[3] == "1" {
+                            c = c.with_secure(true);
+                        }
+                        r = r.with_cookie(c);
+                    }
+                }
+            }
+            let b: Vec<u8> = r.into();
+            Some(hex(&b))
+        }
         "setcookie" => {
             let ob = |s: &str| if s == "none" { None } else { Some(unhex_str(s)) };
             let mut c = SetCookie::new(unhex_str(args[0]), unhex_str(args[1]));
